@@ -2,6 +2,7 @@ package eng
 
 import (
 	"go/ast"
+	"go/token"
 	"go/types"
 	"strings"
 )
@@ -226,4 +227,76 @@ func (f *Fn) UnderCondArmAfter(l Loc, arm bool, after Matcher, substrs ...string
 		}
 	}
 	return false
+}
+
+// BranchSite is one break/continue statement with the if-conditions it is nested in (innermost
+// last), each as "cond=T" / "cond=F" for the arm it lies in, up to the statement it leaves.
+type BranchSite struct {
+	Stmt  *ast.BranchStmt
+	Pos   string
+	Conds []string
+	Lin   []string // linear normal forms of the conjuncts of true-arm conditions ("" when not linear)
+}
+
+// Branches lists the break (tok "break") or continue statements of the function body (closures
+// excluded) with their enclosing conditions inside the innermost loop/switch/select.
+func (f *Fn) Branches(tok string) []BranchSite {
+	var out []BranchSite
+	var stack []ast.Node
+	ast.Inspect(f.Body, func(n ast.Node) bool {
+		if n == nil {
+			stack = stack[:len(stack)-1]
+			return true
+		}
+		if _, ok := n.(*ast.FuncLit); ok {
+			return false
+		}
+		stack = append(stack, n)
+		b, ok := n.(*ast.BranchStmt)
+		if !ok || b.Tok.String() != tok {
+			return true
+		}
+		bs := BranchSite{Stmt: b, Pos: f.P.Pos(b.Pos())}
+		for i := len(stack) - 2; i >= 0; i-- {
+			stop := false
+			switch s := stack[i].(type) {
+			case *ast.ForStmt, *ast.RangeStmt:
+				stop = true
+			case *ast.SwitchStmt, *ast.TypeSwitchStmt, *ast.SelectStmt:
+				stop = tok == "break"
+			case *ast.IfStmt:
+				child := stack[i+1]
+				arm := ""
+				if child == ast.Node(s.Body) {
+					arm = "=T"
+				} else if s.Else != nil && child == ast.Node(s.Else) {
+					arm = "=F"
+				}
+				if arm != "" {
+					bs.Conds = append([]string{types.ExprString(s.Cond) + arm}, bs.Conds...)
+					if arm == "=T" {
+						var split func(e ast.Expr)
+						split = func(e ast.Expr) {
+							e = ast.Unparen(e)
+							if be, ok := e.(*ast.BinaryExpr); ok && be.Op == token.LAND {
+								split(be.X)
+								split(be.Y)
+								return
+							}
+							if l, ok := LinearCmp(f.Info, e); ok {
+								bs.Lin = append(bs.Lin, l)
+							}
+						}
+						split(s.Cond)
+					}
+				}
+			}
+			if stop {
+				break
+			}
+		}
+		out = append(out, bs)
+		return true
+	})
+	return out
 }
